@@ -89,11 +89,11 @@ def judge(call, x, exp):
         return 'mask', obs
     want = np.asarray(x.view(np.ndarray))[mask]
     g = full.gated_data
-    if not (np.asarray(g.view(np.ndarray)).shape == want.shape and np.array_equal(np.asarray(g.view(np.ndarray)), want)):
+    if not (np.asarray(g.view(np.ndarray)).shape == want.shape and np.asarray(g.view(np.ndarray)).tobytes() == np.ascontiguousarray(want).tobytes()):
         return 'gated!=input[mask]', obs
     if type(g) is not type(x) or meta_of(g) != meta_of(x):
         return 'gated-metadata', obs
-    if not (type(short) is type(g) and np.array_equal(np.asarray(short.view(np.ndarray)), np.asarray(g.view(np.ndarray)))
+    if not (type(short) is type(g) and np.ascontiguousarray(short.view(np.ndarray)).tobytes() == np.ascontiguousarray(g.view(np.ndarray)).tobytes()
             and meta_of(short) == meta_of(g)):
         return 'short!=full', obs
     return None, obs
@@ -167,6 +167,10 @@ def main(chk, replay=None):
                 label = 'start_end/%s' % kind
             elif gate == 'high_low':
                 ev, kind, form, hi, lo = scn
+                if any(v == -777 for e in ev for v in e):
+                    if kind != 'array-float':
+                        continue                  # NaN readings exist in floating-point data only
+                    ev = [[float('nan') if v == -777 else v for v in e] for e in ev]
                 x = C.get([list(e) for e in ev], kind, 2)
                 kw = {}
                 if hi != NONE:
